@@ -346,10 +346,23 @@ def _short_word_behaviour():
     return out
 
 
+def _register_db_names():
+    from props import c20 as _c20
+
+    check("C15.db_names")(_c20.dfa_names)  # the same check function under a C15 name
+    return _c20
+
+
+_C20 = _register_db_names()
+
+
 def run(ctx):
     quick = ctx.tier == "quick"
     Perm = D.P()
     rng = D.subrng(ctx, "c15")
+    ctx.run("C15.db_names", _C20.dfa_name_pairs(D.subrng(ctx, "c15-names"), quick), chunk=10,
+            rule="database entries of distinct permutations do not interfere (pairs of equal length <= 3, seeded 4-12, and pairs of "
+                 "length 11-13 differing only in reading the digits 1,0 / 10)")
     ctx.run("C15.m_dfa", range(0, 8 if quick else 10), chunk=1,
             rule="all words over {U,L,D,R} of each length 0..7 (9 thorough) against 'vertical and horizontal letters alternate' "
                  "(4-state automata: agreement up to length 7 is exact)")
